@@ -104,6 +104,8 @@ func probe(name string) string {
 			return second
 		}
 		return "first:" + first
+	case "unionptr":
+		return opBuild(typeByID["NulKind"], "x", "R", "m1 k4e i5")
 	case "ptruint":
 		return opBuild(typeByID["NulU8"], "x", "T", "m1 k56 i5")
 	case "uintkind":
@@ -198,7 +200,7 @@ func main() {
 	defer out.Close()
 	if fl.Replay != "" {
 		// the probes always run first: the driver sets the model's quirk switches from them
-		pending := [][]string{{"q1", "probe", "narrowing"}, {"q2", "probe", "uintkind"}, {"q3", "probe", "rewrap"}, {"q4", "probe", "ptruint"}}
+		pending := [][]string{{"q1", "probe", "narrowing"}, {"q2", "probe", "uintkind"}, {"q3", "probe", "rewrap"}, {"q4", "probe", "ptruint"}, {"q5", "probe", "unionptr"}}
 		for _, line := range lib.ReadLines(fl.Replay) {
 			f := strings.Split(line, "\t")
 			if len(f) < 3 {
@@ -259,6 +261,7 @@ func generate(rng *lib.Rng, n int, tier string) [][]string {
 	g.add("q2", "probe", "uintkind")
 	g.add("q3", "probe", "rewrap")
 	g.add("q4", "probe", "ptruint")
+	g.add("q5", "probe", "unionptr")
 	corpus(g)
 	var withSchema []*typeEntry
 	for i := range typeTable {
@@ -506,6 +509,27 @@ func corpus(g *gen) {
 	g.add("z2", "gotype", "NulBytes", "R", "", "m2 k42 b k4c a0")
 	g.add("z3", "rt", "NulBytes", "cbor", "", "", "S3 p z p z p z")
 	g.add("z4", "rt", "NulBytes", "json", "", "", "S3 z z z")
+	// unions as values of ordered-map structs, as members of unions, in lists of maps
+	g.add("m1", "build", "MapUK", "T", "", "", "m2 k61 m1 k537472696e67 s78 k62 m1 k496e74 i7")
+	g.add("m2", "build", "MapUK", "R", "", "", "m2 k61 m1 k73 s78 k62 m1 k696e m2 k58 i1 k59 s79")
+	g.add("m3", "rt", "MapUK", "cbor", "", "", "S2 L2 s62 s61 G2 s61 S3 p s78 z z s62 S3 z p i7 z")
+	g.add("m4", "rt", "MapUK", "json", "", "", "S2 L1 s61 G1 s61 S3 z z p S2 i1 s79")
+	g.add("m5", "build", "MapUD", "R", "", "", "m2 k61 s78 k62 a2 s70 s71")
+	g.add("m6", "build", "MapUS", "R", "", "", "m2 k61 s733a78 k62 s633a52656400")
+	g.add("m7", "build", "MapUS", "R", "", "", "m1 k61 s633a526564")
+	g.add("m8", "build", "MapUKN", "R", "", "", "m2 k61 n k62 m1 k69 i3")
+	g.add("m9", "build", "MapUDN", "R", "", "", "m2 k61 n k62 i3")
+	g.add("m10", "build", "MapUSN", "R", "", "", "m2 k61 n k62 s733a")
+	g.add("m11", "build", "UU", "R", "", "", "m1 k6b m1 k73 s78")
+	g.add("m12", "build", "UU", "R", "", "", "m1 k64 a1 s70")
+	g.add("m13", "build", "UU", "R", "", "", "m1 k70 s633a477265656e")
+	g.add("m14", "build", "UKO", "R", "", "", "m1 k69 i3")
+	g.add("m15", "build", "UKO", "R", "", "", "s733a68")
+	g.add("m16", "rt", "UU", "cbor", "", "", "S4 z z p S2 z p s426c7565 z")
+	g.add("m17", "build", "ListMapU", "R", "", "", "m2 k4c a2 m1 k61 m1 k73 s78 m0 k53 a1 m1 k62 s733a79")
+	g.add("m18", "build", "USP", "R", "", "", "s783a")
+	g.add("m19", "build", "USP", "R", "", "", "m0")
+	g.add("m20", "build", "USP", "R", "", "", "m1 k733a s78")
 	// a wrapped node is a live view: optional fields set / cleared behind the pointer
 	g.add("lv1", "live", "Opt", "cbor", "", "", "S3 z z z", "S3 p i1 p s62 p t")
 	g.add("lv2", "live", "Opt", "json", "", "", "S3 p i1 p s62 p t", "S3 z z z")
